@@ -16,7 +16,7 @@
    reports how often the library takes it). *)
 From Coq Require Import ZArith Bool List.
 From Verif Require Import Word Conc Gen_consts Gen_fields Gen_dqstate Gen_lanesites SLane SLane_proofs SLane_progress
-  SLaneT SLaneT_proofs.
+  SLaneT SLaneT_proofs SLaneR SLaneR_proofs.
 Import ListNotations.
 Local Open Scope Z_scope.
 
@@ -89,3 +89,20 @@ Theorem C01_slanet_recorded_traces :
   firstn 2 (conform ex_cfg_submitter (map weaken_xchg ex_trace_submitter)) = [2; 0].
 Proof. exact demo_traces. Qed.
 Print Assumptions C01_slanet_recorded_traces.
+
+(* the global replay (Model/SLaneR.v, used by lib/props/c01_slane.py on every recorded round): the scheduler takes only
+   steps of SLane — whatever action lists, preferred order and window it is given, the state it ends in is reachable in
+   SLane (action lists without the override wakeup, valid thread ids).  A round it consumes entirely is therefore a run of
+   SLane with the recorded outcomes (was_empty, probe results, lock restarts, every dq_state value written, pop results,
+   item identities), and SLane's theorems apply to the state it reports *)
+Theorem C01_slanet_replay_reach : forall rb fuel w s qs ord done,
+  qs_ok qs = true -> reach rb s -> reach rb (fst (fst (sched fuel w s qs ord done))).
+Proof. exact sched_reach. Qed.
+Print Assumptions C01_slanet_replay_reach.
+
+(* non-vacuity 3: a recorded round (2 submitters, 16 items, with a DIRTY retry) is consumed entirely by the scheduler *)
+Theorem C01_slanet_recorded_round :
+  qs_ok ex_qs = true /\ replay ex_rb 48 ex_qs ex_ord = ex_result /\
+  nth 1 ex_result 1 = 0 /\ nth 0 ex_result 0 = Z.of_nat (length ex_ord).
+Proof. exact demo_replay. Qed.
+Print Assumptions C01_slanet_recorded_round.
